@@ -200,6 +200,9 @@ func RunOne(scn Scenario, tmpl, dir string, tr int, seed int64, choices []string
 		// procs that were waiting for a lock may have reached a call boundary by now
 		for _, name := range order {
 			if lockBlocked[name] {
+				if w.Ctl.StillLocked(procs[name]) {
+					continue
+				}
 				if _, _, lk, err := w.Ctl.AwaitL(procs[name], wait); err != nil {
 					res.Err = err
 					return
